@@ -110,3 +110,44 @@ Definition undefined_refs (c : case) : list string :=
       ++ (if alloc_disc (k_ops c) then [] else ["<alloc_disc fails>"])
   | _, _ => []
   end%list.
+
+(* (round 3) traces in which a called name is defined WITHOUT a file (Model.Alloc.fileless): by C07_fileless_call_rejected the
+   model's build fails for them, so an accepted real compile among them is a code-5 mismatch; the indices are the measured
+   coverage of that part of the quantifier *)
+Definition fileless_hits (c : case) : list string :=
+  match run (k_cfg c) (k_ops c), k_b c with
+  | Some st, Some b => fileless_called (k_cfg c) b st
+  | _, _ => []
+  end.
+Definition fileless_cases (l : list case) : list nat :=
+  bad_indices (fun c => match fileless_hits c with [] => true | _ => false end) l.
+
+(* (round 3) everything the harness reads about one case, computed with ONE replay and ONE build:
+   [case_code; undisciplined; not closed; illegal path; a called name is defined without a file] (flags: 1 = yes).
+   summary_spec below states that this is exactly case_code / case_facts / fileless_hits. *)
+Definition summary (c : case) : list nat :=
+  match run (k_cfg c) (k_ops c) with
+  | None => [1; 0; 0; 0; 0]%nat
+  | Some st =>
+      match k_b c with
+      | None => [if k_ok c then 2 else 0; 0; 0; 0; 0]%nat
+      | Some b =>
+          let fl := match fileless_called (k_cfg c) b st with [] => 0%nat | _ => 1%nat end in
+          match build (k_cfg c) b st with
+          | inl e => [if err_matches e c then 0 else 3; 0; 0; 0; fl]%nat
+          | inr files =>
+              [if k_ok c then (if same_map (printed (k_cfg c) files) (k_files c) then 0%nat else 4%nat) else 5%nat;
+               b2n (negb (alloc_disc (k_ops c) && disc (k_cfg c) b st));
+               b2n (negb (closedb (k_cfg c) files));
+               b2n (negb (negb (cfg_legal (k_cfg c)) || paths_legal (k_cfg c) b st));
+               fl]
+          end
+      end
+  end.
+Definition summaries (l : list case) : list (list nat) := map summary l.
+
+Lemma summary_code c : nth 0 (summary c) 0%nat = case_code c.
+Proof.
+  unfold summary, case_code. destruct (run (k_cfg c) (k_ops c)); [|reflexivity].
+  destruct (k_b c); [|destruct (k_ok c); reflexivity]. destruct (build (k_cfg c) b s); reflexivity.
+Qed.
